@@ -46,8 +46,11 @@ def derivative(poly: PolyLike, *diffvars: Union[ndpoly, str, int]) -> ndpoly:
             idx = poly.names.index(names_ref[diffvar])
         else:
             diffvar = numpoly.aspolynomial(diffvar)
+            # stored terms with zero coefficients do not say which variable
+            # is meant (they are kept when retain_coefficients is on)
+            keep = [bool(numpy.any(coeff)) for coeff in diffvar.coefficients]
             exponents, names = numpoly.remove_redundant_names(
-                diffvar.exponents, diffvar.names
+                diffvar.exponents[keep], diffvar.names
             )
             assert names is not None and len(names) == 1, "one at the time"
             assert numpy.all(exponents == 1), "derivative variable assumes singletons"
